@@ -94,6 +94,10 @@ func (c *clusterT) newConfig(fixedPort int) *config.Config {
 	cfg.LeaveTimeout = 300 * time.Millisecond
 	// background activity is driven explicitly by the harness (c.sync, bg.*)
 	cfg.RoutingTablePushInterval = time.Hour
+	if v := optInt(c.opts, "push_ms", 0); v > 0 {
+		// the periodic routing push left to itself (real time)
+		cfg.RoutingTablePushInterval = time.Duration(v) * time.Millisecond
+	}
 	cfg.TriggerBalancerInterval = time.Hour
 	cfg.DMaps = &config.DMaps{
 		CheckEmptyFragmentsInterval: time.Hour,
@@ -438,6 +442,8 @@ func init() {
 		return "ok " + strconv.Itoa(len(cl.members)-1)
 	})
 	register("c.sync", func(a []string) string { cl.sync(); return "ok" })
+	// c.wait <ms>: real time passes (background loops that the harness left running)
+	register("c.wait", func(a []string) string { time.Sleep(time.Duration(atoi(a[0])) * time.Millisecond); return "ok" })
 	// c.stopconv <i>: a member leaves gracefully and the membership converges (the coordinator's routing update triggered by
 	// the leave event has been computed and pushed); no balancer pass
 	register("c.stopconv", func(a []string) string {
